@@ -18,7 +18,7 @@ EXPLAIN = "c19_explain"
 CASES_PER_FILE = 120
 CASE_FILE_BYTES = 120000
 CASE_TIMEOUT = 20
-TIERS = {"quick": {"n": 2000}, "thorough": {"n": 40000, "exhaustive": True}}
+TIERS = {"quick": {"n": 1500}, "thorough": {"n": 40000, "exhaustive": True}}
 RULE = ("four case kinds in rotation 3:1:4:2 - split: texts of 0-40 (some 200) code points over letters, digits, "
         "spaces, the 8 line-break forms, their near misses (\\t \\x1c-\\x1e \\x84 \\x86 U+2027 U+202A; 1 text in 6 is "
         "heavy in \\x1c-\\x1e) and the substrings ' 28'/' 29', observed through list(iter_splitlines(t)) (and "
